@@ -141,7 +141,7 @@ RV_<G_<NFT_, TC_, Manual, TRO_ HFSM2_IF_UTILITY_THEORY(, TR_, TU_, TG_), NSL_ HF
 		TransitionSets emptyTransitions;
 		PlanControl control{_core, emptyTransitions};
 
-		_apex.deepRequestChange(control, {TransitionType::CHANGE, INVALID_SHORT});
+		_apex.deepRequestChange(control, {TransitionType::CHANGE, INVALID_SHORT, INVALID_STATE_ID});
 
 		// the recorded requests may well lead back to the default activation
 		applyRequests(control, transitions, count);
